@@ -144,6 +144,9 @@ func TestC07(t *testing.T) {
 	rep.Bounds = map[string]any{"worlds": len(worlds), "incarnation_cap": cap}
 	rep.Rule = "BFS to fixpoint in each host world with the event monitor as oracle: callbacks never concurrent; per member join (update)* leave; inside every callback (node lock held) and after every transition the replayed log equals the non-dead records / Members() incl. metadata"
 	rep.Assumptions = []string{"interleavings of two handlers at lock granularity are not part of this check (Engine T)"}
+	if replayT(t, rep, c01TScenarios()) {
+		return
+	}
 	var rp swimReplay
 	replay := loadReplay(&rp)
 	for i, wd := range worlds {
@@ -170,6 +173,9 @@ func TestC07(t *testing.T) {
 			continue
 		}
 		sc.bfs(t, rep, wd.name)
+	}
+	if !replay {
+		runTSet(t, rep, c01TScenarios(), 2, 8000, func(v string) bool { return strings.HasPrefix(v, "event-log") || v == "concurrent-callbacks" })
 	}
 	rep.Distinct = rep.States
 	rep.Evaluations = rep.Transitions
